@@ -115,7 +115,8 @@ func (t TypeURLMap) SetFromSchema(schema map[string]*ast.Definition, url string)
 		}
 
 		for _, f := range v.Fields {
-			if common.IsBuiltinName(f.Name) || isNodeField(f) {
+			// the Relay lookup is answered by every service, a field called node of another type is a field like any other
+			if common.IsBuiltinName(f.Name) || (common.IsQueryObjectName(k) && isNodeField(f)) {
 				continue
 			}
 
